@@ -3,6 +3,8 @@ import math
 
 import numpy as np
 
+from .. import forms
+
 ID = "C16"
 CASES = {"quick": 6000, "thorough": 1400000}
 MIN_NONTRIVIAL = {"quick": 1500, "thorough": 145749}
@@ -11,7 +13,7 @@ REQUIRED = ["value==shannon", "0<=E<=log n", "equal-lengths=>log n", "perm-invar
             "keep_inf=True,val_inf replaces", "keep_inf=True without value raises", "non-positive bar raises",
             "normalised with infinite bars dropped == H / log(#finite bars)", "list of barcodes: infinite bars replaced / dropped in every member"]
 RULE = ("random barcodes (1-50 bars; classes: integer/dyadic lengths, equal lengths, one dominant bar, lengths over 12 "
-        "orders of magnitude, floats), 0-3 infinite bars, lists of 1-6 barcodes, all flag combinations, zero/negative "
+        "orders of magnitude, floats), 0-3 infinite bars, lists of 1-6 barcodes, all flag combinations (a third of the flags given as numpy.bool_), zero/negative "
         "length bars at random positions; non-trivial = >=3 bars with >=2 distinct lengths; distinct = digest of "
         "(barcode(s), flags)")
 ASSUMPTIONS = ["oracle: -sum p log p with math.fsum in double precision; equality tolerance 1e-12*(1+log n)",
@@ -47,12 +49,23 @@ def gen_bars(rng, n, kind):
     return np.column_stack([b * s, (b + l) * s])
 
 
+FLAGRNG = [None]
+
+
 def call(ctx, *a, **kw):
     ctx.ran()
+    # boolean options also arrive as numpy.bool_ (keep_inf=(hom_dim > 0) with a NumPy integer, a column of a settings table)
+    for name in ("keep_inf", "normalize"):
+        if name in kw and FLAGRNG[0] is not None:
+            v = forms.npflag(FLAGRNG[0], kw[name])
+            if v is not kw[name]:
+                ctx.note("numpy.bool_ flags")
+            kw[name] = v
     return PE(*a, **kw)
 
 
 def run_case(ctx, k, rng):
+    FLAGRNG[0] = np.random.default_rng([k, 16])
     kind = str(rng.choice(["int", "dyadic", "equal", "dominant", "wide", "float"]))
     n = int(rng.choice([1, 2, 3, 4, 5, 8, 13, 30, 50])) if rng.random() < 0.97 else int(rng.choice([127, 128, 129, 256, 257, 1000]))
     dgm = gen_bars(rng, n, kind)
